@@ -1536,7 +1536,11 @@ func (x *Exec) checkCalleeFrame(fr *Frame, st *State, fc *FuncContract, name str
 					if strings.HasPrefix(b, "ghost:") || b == "nothing" || strings.HasPrefix(b, "new:") || strings.Contains(b, "@") {
 						continue
 					}
-					if strings.Contains(pv.Prefix, b) {
+					pref := pv.Prefix
+					if pref == "" && pv.LV != nil {
+						pref = lvPrefix(pv.LV)
+					}
+					if pref != "" && strings.Contains(pref, b) {
 						covered = true
 					}
 				}
@@ -1646,4 +1650,34 @@ func (x *Exec) entrySpecEnv(ctx *FuncCtx) *SpecEnv {
 		env.vars[k] = v
 	}
 	return env
+}
+
+// lvPrefix: the heap-key prefix an l-value inside a heap object writes to ("" when it is not a heap field).
+func lvPrefix(lv LVal) string {
+	switch f := lv.(type) {
+	case fieldLV:
+		if base := lvPrefix(f.base); base != "" {
+			return base + "." + f.name
+		}
+		return ""
+	case heapLV:
+		if f.p.Prefix != "" {
+			return f.p.Prefix
+		}
+		if f.p.LV != nil {
+			return lvPrefix(f.p.LV)
+		}
+		return ""
+	}
+	if f, ok := lv.(heapFieldLV); ok {
+		base := f.p.Prefix
+		if base == "" && f.p.LV != nil {
+			base = lvPrefix(f.p.LV)
+		}
+		if base == "" {
+			return ""
+		}
+		return base + "." + f.field
+	}
+	return ""
 }
